@@ -9,6 +9,7 @@ package kubernetes
 //@ requires config != nil && logger.Log != nil
 //@ let ordinal = dret("kubernetes.getPodOrdinalFromHostname", 0, 0)
 //@ check.ordinal_plus_one[C10] ordinal < 9223372036854775807 ==> result != nil && typeis(result, "*statefulSetMembership") && as(result, "*statefulSetMembership").info != nil && as(result, "*statefulSetMembership").info.MemberNumber == ordinal + 1 && as(result, "*statefulSetMembership").info.TotalMembers == config.Dcp.Group.Membership.TotalMembers && ordinal + 1 <= config.Dcp.Group.Membership.TotalMembers
+//@ ensures.kind[C10,C15] result != nil && typeis(result, "*statefulSetMembership")
 //@ check.hostname_ok[C15] dret("kubernetes.getPodOrdinalFromHostname", 0, 1) == nil
 //@ modifies calls("kubernetes.getPodOrdinalFromHostname")
 
@@ -16,3 +17,10 @@ package kubernetes
 //@ props C10
 //@ trusted
 //@ modifies nothing
+
+//@ func NewHaMembership
+//@ props C10 C15
+//@ requires bus != nil && logger.Log != nil
+//@ ensures.kind[C10,C15] typeis(result, "*haMembership") && fresh(as(result, "*haMembership")) && as(result, "*haMembership").info == nil
+//@ ensures.subscribed[C10] calls(EventBus.Bus.SubscribeAsync) == 1 && arg(EventBus.Bus.SubscribeAsync, 0, topic) == helpers.MembershipChangedBusEventName && arg(EventBus.Bus.SubscribeAsync, 0, transactional) == true && isbound(ifaceval(arg(EventBus.Bus.SubscribeAsync, 0, fn)), "(*haMembership).membershipChangedListener")
+//@ modifies calls(EventBus.Bus.SubscribeAsync)
